@@ -26,6 +26,8 @@ RULE = (
     "with repetitions and intermediate saves, then saved, against the same deck saved straight after opening: same parts "
     "(matched by relationship path), XML equal up to the canonical form, other parts byte-identical.  "
     "Non-trivial = distinct (accessor, effect) and distinct (deck, part) pairs."
+    "  (c) statically: every public getter of /repo's source whose body calls something that creates, inserts or removes XML must "
+    "have been seen creating under (a), or be a documented creator, a listed finding or exempt for a stated reason."
 )
 ASSUMPTIONS = [
     "the per-accessor effect table is observed on the objects of the generated deck and of the corpus: a getter that "
